@@ -25,13 +25,15 @@ REQUIRED_FEATURES = ["merge:single-pass", "merge:two-pass", "chunks:empty", "chu
                      "epoch:empty-row-with-tiny-buffer", "chunks:all-empty", "counts:float-fractional",
                      "chunks:repeat-pixel-within-chunk(dupcheck=False)", "pixels:all-records-zero", "input-id-dtype:uint32",
                      "input-id-dtype:uint64", "input-id-dtype:int32", "bins:extra-column-with-NaN:variable-width",
-                     "history:re-chunked-in-place-from-lazy-iterator"]
+                     "history:re-chunked-in-place-from-lazy-iterator", "via:cli-cload-pairs", "cli-chunksize:1",
+                     "cli-chunksize:between", "cli-agg:sum", "cli-agg:max"]
 
 
 def plan(tier, seed):
     n = 16 if tier == "quick" else 48
     per = 7 if tier == "quick" else 60
-    return [{"kind": "unordered", "sub": i, "cases": per} for i in range(n)]
+    return [{"kind": "unordered", "sub": i, "cases": per} for i in range(n)] + \
+           [{"kind": "cli", "sub": i, "cases": 6 if tier == "quick" else 40} for i in range(2 if tier == "quick" else 6)]
 
 
 _AUDIT = {"on": False, "paths": []}
@@ -47,11 +49,89 @@ def run(ctx, shard):
     probes.activate(ctx, owned={"merge_breakpoints", "merger_iter"})
     probes.probe_merge()
     probes.probe_create_exit()
-    rng0 = ctx.rng("plan", shard["sub"])
+    rng0 = ctx.rng("plan", shard["kind"], shard["sub"])
     for k in range(shard["cases"]):
         seedk = int(rng0.integers(2**31))
-        rng = ctx.rng("case", shard["sub"], k, seedk)
-        one_multiset(ctx, shard, k, rng)
+        rng = ctx.rng("case", shard["kind"], shard["sub"], k, seedk)
+        if shard["kind"] == "cli":
+            cli_records(ctx, shard, k, rng)
+        else:
+            one_multiset(ctx, shard, k, rng)
+
+
+def cli_records(ctx, shard, k, rng):
+    """`cooler cload pairs` / `cooler load` with --chunksize from 1 record upward: the text loaders cut the input into
+    chunks of that many lines and feed them to the unordered creation, so the stored pixel table - counts and every
+    value field with its requested aggregate - must not depend on the chunk size."""
+    from click.testing import CliRunner
+    from cooler.cli import cli
+
+    fam = gen.BT_FAMILIES[(shard["sub"] + k) % len(gen.BT_FAMILIES)]
+    bt = [[c.replace(" ", "_").replace(",", "_"), e] for c, e in gen.gen_bt(rng, fam, max_chroms=3, max_bins=10)]
+    n = gen.bt_nbins(bt)
+    bl = gen.bt_bins_list(bt)
+    d = ctx.newdir()
+    bed = os.path.join(d, "bins.bed")
+    with open(bed, "w") as f:
+        for c_, s_, e_ in bl:
+            f.write(f"{c_}\t{s_}\t{e_}\n")
+    # a few anchor pairs, each hit by 1..5 records (so that a pixel's records fall into different chunks)
+    npix = int(rng.integers(1, 8))
+    recs = []
+    for _ in range(npix):
+        b1, b2 = sorted(int(x) for x in rng.integers(0, n, size=2))
+        for _ in range(int(rng.integers(1, 6))):
+            (c1, s1, e1), (c2, s2, e2) = bl[b1], bl[b2]
+            p1, p2 = int(rng.integers(s1, e1)), int(rng.integers(s2, e2))
+            sc = float(int(rng.integers(-40, 40))) / 8.0
+            rec = (c1, p1, c2, p2, sc) if rng.random() < 0.7 or b1 == b2 else (c2, p2, c1, p1, sc)
+            recs.append((rec, (b1, b2)))
+    recs = [recs[i] for i in rng.permutation(len(recs))]
+    agg = [None, "sum", "max", "min"][int(rng.integers(4))]
+    via = "pairs"
+    want_cnt, want_sc = {}, {}
+    for (c1, p1, c2, p2, sc), key in recs:
+        want_cnt[key] = want_cnt.get(key, 0) + 1
+        want_sc.setdefault(key, []).append(sc)
+    fold = {None: sum, "sum": sum, "max": max, "min": min}[agg]
+    want_sc = {kk: fold(v) for kk, v in want_sc.items()}
+    txt = os.path.join(d, "in.txt")
+    with open(txt, "w") as f:
+        for i, ((c1, p1, c2, p2, sc), key) in enumerate(recs):
+            f.write(f"r{i}\t{c1}\t{p1}\t{c2}\t{p2}\t{sc}\n")
+    sizes = sorted({1, 2, 3, max(1, len(recs) - 1), len(recs), 10**6})
+    for csz in sizes:
+        cid = f"cli:{shard['sub']}:{k}:{csz}"
+        if not ctx.want(cid):
+            continue
+        out = os.path.join(d, f"out.{csz}.cool")
+        fld = "score=6:dtype=float" + (f",agg={agg}" if agg else "")
+        args = ["cload", "pairs", "--zero-based", "-c1", "2", "-p1", "3", "-c2", "4", "-p2", "5", "--chunksize", str(csz),
+                "--field", fld, bed, txt, out]
+        desc = {"via": via, "agg": agg, "chunksize": csz, "records": len(recs), "pixels": len(want_cnt), "bt": bt}
+        with ctx.case(cid, desc) as c:
+            c.feature("via:cli-cload-pairs", f"cli-agg:{agg}", "cli-chunksize:1" if csz == 1 else
+                      ("cli-chunksize:>=records" if csz >= len(recs) else "cli-chunksize:between"))
+            r = CliRunner().invoke(cli, args)
+            if r.exit_code != 0:
+                raise r.exception
+            keys, cols = read_pixels_raw(out, "/", ("count", "score"))
+            c.check(list(keys) == sorted(want_cnt), "cli-pixel-rows-differ",
+                    "pixel rows written by `cload pairs` are not the sorted pixels of the records",
+                    lambda: {"got": list(keys)[:20], "want": sorted(want_cnt)[:20]})
+            c.check(dict(zip(keys, cols["count"].tolist())) == want_cnt, "cli-counts-depend-on-chunking",
+                    f"`cload pairs --chunksize {csz}` counts differ from counting all records at once",
+                    lambda: {"got": list(zip(keys, cols["count"].tolist()))[:20], "want": sorted(want_cnt.items())[:20]})
+            got_sc = dict(zip(keys, cols["score"].tolist()))
+            multi_chunk = csz < len(recs)
+            ok = got_sc == want_sc
+            if not ok:
+                c.fail(f"cli-field-aggregate-depends-on-chunking:{agg or 'default'}" if multi_chunk
+                       else f"cli-field-aggregate-wrong:{agg or 'default'}",
+                       f"`cload pairs --chunksize {csz} --field {fld}`: the value column is not the requested aggregate "
+                       f"of all records of each pixel", {"got": sorted(got_sc.items())[:12], "want": sorted(want_sc.items())[:12]})
+            if len(recs) >= 2 and len(recs) > len(want_cnt):
+                c.nontrivial("cli", repr(bt), repr(recs[:40]), agg, csz)
 
 
 def one_multiset(ctx, shard, k, rng):
